@@ -17,7 +17,8 @@ def gen_set(rng):
             sn = None                  # two units with one service name share a service file: outside the property
         pods.append({"stem": stem, "service_name": sn, "podname": rng.choice([None, "my" + stem.replace(" ", "")])})
     ctrs = []
-    for stem in rng.sample(["c1", "c2", "web", "db", "side car", "z"], rng.randint(0, 6)):
+    # members may be template instances (app@one.container) or bare templates
+    for stem in rng.sample(["c1", "c2", "web", "db", "side car", "z", "app@one", "app@two", "t@"], rng.randint(0, 6)):
         r = rng.random()
         if r < 0.65 and pods:
             pod = rng.choice(pods)["stem"] + ".pod"
